@@ -137,6 +137,14 @@ pub fn gen_history<S: Sut>(seed: u64, cfg: Cfg, sweep: Option<Sweep>) -> Outcome
             if let Some(cmd) = S::template_cmd(role, &mut rng) {
                 go!(Act::Gen { r, actor: actor_ids[r], cmd, old: rng.below(12) });
             }
+            if cfg.merges && S::HAS_MERGE && rng.chance(1, 3) {
+                go!(Act::Merge { r: rng.below(n), s: rng.below(n) });
+            }
+        }
+        if cfg.merges && S::HAS_MERGE {
+            for _ in 0..rng.below(4) {
+                go!(Act::Merge { r: rng.below(n), s: rng.below(n) });
+            }
         }
     }
     for stepno in 0..(if cfg.policy == 254 { 0 } else { cfg.nsteps }) {
